@@ -119,6 +119,8 @@ def b_eval(plan, literal, seed=None):
                 name, parent, top = pn, cn, False
             else:
                 continue
+            if NG.rebuilt_tuple(s):
+                continue      # stateful growth of prefixItems on repeated builds: listed finding, outside the model
             obs = NG.ctree(p)
             model = f"norm C{ci} ENV{ci} {cstr(parent)} {cbool(top)} {NG.csch(s)} {cstr(name)}"
             out["tree"].append({"schema": s, "position": kind, "name": name, "parent": parent, "literal": literal, "term": f"tree_eqb ({model}) {obs}",
@@ -525,6 +527,17 @@ def b_check(run, results, rng, tier, extra=True):
                                                        "(after-validators run twice under a non-Schema parent; tree-level only, generated bytes are equal)")
     except Exception as e:  # noqa
         run.violation("harness-error", {"where": "nullable_twice_at_top replay", "error": repr(e)}, no_input=True)
+    try:
+        w = {"type": ["integer", "null"], "anyOf": [{"type": "array", "prefixItems": [{"type": "string"}], "items": {"type": "boolean"}}]}
+        data, _ = impl.parse_doc(G.doc_with({"H": {"type": "object", "properties": {"p": copy.deepcopy(w)}}}))
+        ms = [m for m in getattr(data, "models", [])]
+        if ms:
+            pr = (list(ms[0].required_properties) + list(ms[0].optional_properties))[0]
+            lens = [len(getattr(x.inner_property, "inner_properties", [])) for x in getattr(pr, "inner_properties", []) if type(x).__name__ == "ListProperty"]
+            if len(set(lens)) > 1:
+                run.known_finding("prefix_items_grow_on_rebuild", f"{json.dumps(w)}: the same tuple array is built {len(lens)} times with {lens} members")
+    except Exception as e:  # noqa
+        run.violation("harness-error", {"where": "prefix_items_grow_on_rebuild replay", "error": repr(e)}, no_input=True)
     print("phase B gen %.1fs (%d terms)" % (time.time() - t0, len(terms))); t0 = time.time()
     bad = run_cases(hdr, terms, shard=250)
     print("phase B coq %.1fs" % (time.time() - t0))
